@@ -45,6 +45,15 @@ func vScenarioC17(rc *runCtx) {
 	o.profile = transportProfile{segPm: []int{0, 200}[tp.Draw("c17.seg", 2)], coalPm: 100, latPm: 200, latMax: 20 * time.Millisecond,
 		bytesPerMs: []int{0, 100}[tp.Draw("c17.bw", 2)]}
 	o.simCap = 20 * time.Minute
+	if cfg.relays > 0 && tp.Bool("c17.relayslow", 300) {
+		// the relay's own connection towards the server comes late: around the client's grace period or beyond
+		o.relayConnectDelay = time.Duration(600+tp.Draw("c17.relaydelay", 1200)) * time.Millisecond
+		if tp.Bool("c17.relayslowlink", 600) {
+			// ... while the in-band handshake is still on its way over a slow path
+			o.profile.latPm, o.profile.latMax, o.profile.coalPm = 1000, time.Duration(100+tp.Draw("c17.slowlat", 300))*time.Millisecond, 600
+		}
+		rc.res.Scenario["relay_connect_delay"] = o.relayConnectDelay.String()
+	}
 	x := newXferWorld(rc, o)
 	// connector outcome for the genuine client
 	outcome := []string{"ok", "refuse", "late", "dead", "no-listener", "hang"}[tp.Pick("c17.connector", 5, 1, 1, 1, 1, 1)]
